@@ -58,6 +58,8 @@ func Spec() *run.Spec {
 			"nontrivial.Mesh.WeldByFloat3Attribute":          50,
 			"nontrivial.weld∘unweld":                         50,
 			"nontrivial.Mesh.ToPointCloud":                   100,
+			"derive_twice.bases_with_spare_capacity":         500,
+			"reverified_outputs":                             100000,
 			"nontrivial.Mesh.Append":                         100,
 			"nontrivial.repeat.Mesh":                         100,
 			"nontrivial.meshops.SplitOnUniqueMaterials":      100,
@@ -340,6 +342,15 @@ type opctx struct {
 	params []string
 	// dropSeen: some dropping operation had >= 1 surviving and >= 1 dropped primitive
 	dropSeen bool
+	// retained: every result produced during the case with its observable state at
+	// the time it was produced; re-read after all operations of the case have run
+	retained []retainedOut
+}
+
+type retainedOut struct {
+	site string
+	mesh modeling.Mesh
+	snap *ref.Snapshot
 }
 
 func newOpctx(c *run.Ctx, res *run.Result, m modeling.Mesh, d gen.MeshDesc) *opctx {
@@ -413,6 +424,12 @@ func (o *opctx) violate(class, site, detail string, extra ...any) {
 // construction. Any panic is then a refutation: the operation did not do what it
 // says. The result must be well-formed before a reference is applied to it.
 func (o *opctx) call(site string, f func() modeling.Mesh, extra ...any) (*ref.Snapshot, bool) {
+	_, s, ok := o.callMesh(site, f, extra...)
+	return s, ok
+}
+
+// callMesh is call that also hands back the mesh, for operations derived from it later.
+func (o *opctx) callMesh(site string, f func() modeling.Mesh, extra ...any) (modeling.Mesh, *ref.Snapshot, bool) {
 	o.c.Note(site)
 	o.res.SetAdd("ops", site)
 	o.res.Count("calls."+site, 1)
@@ -423,13 +440,49 @@ func (o *opctx) call(site string, f func() modeling.Mesh, extra ...any) (*ref.Sn
 			class = "runtime-panic"
 		}
 		o.violate(class, site, fmt.Sprintf("panicked on a well-formed input that meets the documented precondition: %s (in %s)", p.Value, p.Site), extra...)
-		return nil, false
+		return out, nil, false
 	}
 	if err := ref.WF(out); err != nil {
 		o.violate("malformed-output", site, "result is not well-formed: "+err.Error(), extra...)
-		return nil, false
+		return out, nil, false
 	}
-	return ref.Snap(out), true
+	snap := ref.Snap(out)
+	o.retain(site, out, snap)
+	return out, snap, true
+}
+
+func (o *opctx) retain(site string, m modeling.Mesh, snap *ref.Snapshot) {
+	o.retained = append(o.retained, retainedOut{site, m, snap})
+}
+
+// stillSame re-reads one earlier result: a result that was right when it was
+// produced must still read the same after later operations (an operation does
+// "nothing else": it must not write into storage an earlier result still uses).
+func (o *opctx) stillSame(r retainedOut, later []string, extra ...any) bool {
+	now := ref.Snap(r.mesh)
+	d := r.snap.Diff(now)
+	if d == "" {
+		o.res.Count("reverified_outputs", 1)
+		return true
+	}
+	w := []any{"result_when_produced", witnessOf(r.snap), "result_now", witnessOf(now), "later_operations", later}
+	o.violate("output-changed-later", r.site, fmt.Sprintf("the result of %s read differently after the later operations of the case %v than when it was produced: %s", r.site, later, d), append(w, extra...)...)
+	return false
+}
+
+// reverify re-reads every result of the case after all its operations have run.
+func (o *opctx) reverify() {
+	for i, r := range o.retained {
+		var later []string
+		for _, l := range o.retained[i+1:] {
+			if len(later) < 12 {
+				later = append(later, l.site)
+			}
+		}
+		if !o.stillSame(r, later) {
+			return
+		}
+	}
 }
 
 // must unwraps a Transformer result: the precondition is met, so an error is a refutation
@@ -455,6 +508,7 @@ func (o *opctx) param(format string, a ...any) {
 func (o *opctx) nonIdentity() bool { return o.im.nPrims() > 0 && !o.d.Identity }
 
 func (o *opctx) finish(needDrop bool) {
+	o.reverify()
 	o.res.Sig = o.d.Sig() + "|" + strings.Join(o.params, ";")
 	o.res.Nontrivial = o.nonIdentity() && (!needDrop || o.dropSeen)
 	sample := map[string]any{"mesh": o.d, "params": o.params}
